@@ -92,6 +92,10 @@ func Check(res *Result) []Violation {
 	}
 
 	// ---- C05 termination ----
+	if sim.OverBudget && res.AllReturned {
+		add("C06", "leak:still-running", fmt.Sprintf("every caller has returned, yet scheduler goroutines keep running past the step budget %d (fair scheduling since step %d); live: %s", d.Budget, d.FairAfter, strings.Join(res.StuckDesc, "; ")))
+		return out
+	}
 	if sim.OverBudget {
 		add("C05", "livelock", fmt.Sprintf("step budget %d exceeded (fair scheduling since step %d); live: %s", d.Budget, d.FairAfter, strings.Join(res.StuckDesc, "; ")))
 		return out
